@@ -419,15 +419,170 @@ def describe_conf(c):
     return d
 
 
+# ---------------------------------------------------------------------------------------------
+# "seq" cases: sequences of evaluator replies through the real checkAndSendResponseToModules / Notify
+#   seq <#modules> {<name> <class> <open file> <close file> <send-close> <#extras> {<key> <value>}} <clock0 s> <#steps>
+#       <cluster> <group0> <group1> {<dt s> <group index> <status> <complete> <total> <totallag> <maxlag> <#parts> parts}
+# ---------------------------------------------------------------------------------------------
+RESERVED_VALUES = ["Zm9v/YmFy+cQ==", "a b&c=d:e", "100% sure?", "k1=v1;k2=v2", "x+y z", "tier:1/2", "#hash&amp;", "plain"]
+
+
+def gen_seq(rng, templates):
+    c = {"kind": "seq", "mode": "seq", "template": "(sequence)", "good": 0, "extras": None}
+    n = rng.choice([1, 2, 2, 3])
+    names = rng.sample(["pager", "chat", "mail", "audit"], n)
+    mods = []
+    for nm in names:
+        cls = rng.choice(["http", "http", "email"])
+        if cls == "email":
+            o, cl = "default-email.tmpl", "default-email.tmpl"
+        else:
+            o, cl = rng.choice([("default-http-post.tmpl", "default-http-delete.tmpl"),
+                                ("default-slack-post.tmpl", "default-slack-delete.tmpl"),
+                                ("default-http-post.tmpl", "default-http-post.tmpl")])
+        if cls == "http" and rng.random() < 0.15:      # (an email module needs a template that starts with a Subject line)
+            o, cl = rng.choice(templates), rng.choice(templates)
+        keys = rng.sample(EXTRA_KEYS, rng.randrange(1, 4))
+        mods.append({"name": nm, "class": cls, "open": o, "close": cl, "send_close": 1 if rng.random() < 0.75 else 0,
+                     "extras": [(k, rng.choice(RESERVED_VALUES)) for k in keys]})
+    if "api_key" not in [k for k, _ in mods[0]["extras"]]:
+        mods[0]["extras"].append(("api_key", rng.choice(RESERVED_VALUES[:5])))
+    c["mods"] = mods
+    c["clock0"] = rng.choice([1500000000, 1700000000, rng.randrange(10**9, 2 * 10**9)])
+    c["cluster"] = "cluster-" + str(rng.randrange(10))
+    c["groups"] = ["group-a%d" % rng.randrange(100), "group-b%d" % rng.randrange(100)]
+    pattern = rng.choice([[(0, "bad"), (0, "bad"), (0, "ok")], [(0, "bad"), (1, "bad"), (0, "bad"), (0, "ok")],
+                          [(0, "bad"), (0, "bad")], [(0, "bad"), (0, "ok"), (0, "bad"), (0, "bad")],
+                          [(1, "bad"), (0, "bad"), (1, "bad"), (1, "ok")], [(0, "ok"), (0, "bad"), (0, "bad")]])
+    steps = []
+    for g, what in pattern:
+        st = gen_case(rng, TEMPLATES[0], "close" if what == "ok" else "wf")
+        st["status"] = 1 if what == "ok" else rng.choice([2, 3, 3])
+        if what == "ok":
+            st["partitions"], st["maxlag"] = [], None
+        st["dt"] = rng.choice([1, 5, 61, 3600])
+        st["g"] = g
+        steps.append(st)
+    c["steps"] = steps
+    return c
+
+
+def _status_tail(st):
+    tail = fmt_case(st).split(" ")[7:]
+    n = int(tail[0])
+    return tail[1 + 2 * max(n, 0):]
+
+
+def fmt_seq(c):
+    out = ["seq", str(len(c["mods"]))]
+    for m in c["mods"]:
+        out += [m["name"], m["class"], m["open"], m["close"], str(m["send_close"]), str(len(m["extras"]))]
+        for k, v in m["extras"]:
+            out += [hx(k), hx(v)]
+    out += [str(c["clock0"]), str(len(c["steps"])), hx(c["cluster"]), hx(c["groups"][0]), hx(c["groups"][1])]
+    for st in c["steps"]:
+        out += [str(st["dt"]), str(st["g"])] + _status_tail(st)
+    return " ".join(out)
+
+
+def parse_seq(line):
+    t = _Toks(line)
+    assert t.next() == "seq"
+    c = {"kind": "seq", "mods": [], "template": "(sequence)", "good": 0, "extras": None}
+    for _ in range(int(t.next())):
+        m = {"name": t.next(), "class": t.next(), "open": t.next(), "close": t.next(), "send_close": int(t.next())}
+        m["extras"] = [(unhx(t.next()), unhx(t.next())) for _ in range(int(t.next()))]
+        c["mods"].append(m)
+    c["clock0"], nsteps = int(t.next()), int(t.next())
+    c["cluster"] = unhx(t.next())
+    c["groups"] = [unhx(t.next()), unhx(t.next())]
+    c["steps"] = []
+    for _ in range(nsteps):
+        st = {"dt": int(t.next()), "g": int(t.next()), "status": int(t.next()), "complete": t.next(),
+              "total_partitions": int(t.next()), "total_lag": int(t.next())}
+        st["maxlag"] = _partition(t)
+        n = int(t.next())
+        st["partitions"] = None if n < 0 else [_partition(t) for _ in range(n)]
+        c["steps"].append(st)
+    c["status"] = c["steps"][0]["status"]
+    c["partitions"] = [p for st in c["steps"] for p in (st["partitions"] or [])]
+    c["maxlag"] = None
+    return c
+
+
+def seq_expected(c):
+    """The notifications the configuration and the sequence call for (threshold 2, send-interval 0, no send-once)."""
+    mods = sorted(c["mods"] + [{"name": "zzfields", "class": "http", "open": None, "close": None, "send_close": 1,
+                                "extras": c["mods"][0]["extras"] if c["mods"] else []}], key=lambda m: m["name"])
+    active, out = set(), []
+    for i, st in enumerate(c["steps"]):
+        good = st["status"] == 1
+        if not good and st["status"] > 1:
+            active.add(st["g"])
+        for m in mods:
+            if good and st["g"] in active and m["send_close"]:
+                out.append((i, m, "close"))
+            elif not good and st["status"] >= 2:
+                out.append((i, m, "open"))
+        if good:
+            active.discard(st["g"])
+    return out
+
+
+def seq_oracle(c, impl_line):
+    """From the configuration and the sequence alone: every notification the sequence calls for is sent once, its body is
+    the configured template on the configured extras (verbatim), the reply, the incident's id and the time the incident
+    was opened - and renders (to well-formed JSON for the HTTP / Slack templates)."""
+    if "MISMATCH" in impl_line or impl_line.startswith("SEQ-"):
+        bad = [e for e in impl_line.split(" | ") if "MISMATCH" in e or e.startswith("SEQ-")]
+        return ["what a module hands to its template is not the configured / incident data: " + bad[0][:400]]
+    entries = [e for e in impl_line.split(" | ") if e]
+    exp = seq_expected(c)
+    if len(entries) != len(exp):
+        return ["%d notifications observed, the sequence calls for %d: %s" % (len(entries), len(exp), impl_line[:300])]
+    fails = []
+    for e, (i, m, kind) in zip(entries, exp):
+        head = "s%d %s %s " % (i, m["name"], kind)
+        if not e.startswith(head):
+            fails.append("expected %s..., observed %s" % (head, e[:80]))
+            continue
+        verdict = e[len(head):]
+        if m["name"] == "zzfields":
+            if verdict != "FIELDS-OK":
+                fails.append("module zzfields: " + verdict[:200])
+            continue
+        st = c["steps"][i]
+        cc = dict(st)
+        cc.update({"template": m[kind], "extras": m["extras"], "cluster": c["cluster"], "group": c["groups"][st["g"]], "id": b"id"})
+        fails += ["step %d module %s (%s): %s" % (i, m["name"], kind, x) for x in oracle(cc, verdict)]
+    return fails
+
+
+def describe_seq(c):
+    return {"modules": [{k: m[k] for k in ("name", "class", "open", "close", "send_close")} |
+                        {"extras": {k.decode() if isinstance(k, bytes) else k: v.decode() if isinstance(v, bytes) else v
+                                    for k, v in m["extras"]}} for m in c["mods"]],
+            "cluster": c["cluster"].decode() if isinstance(c["cluster"], bytes) else c["cluster"],
+            "groups": [g.decode() if isinstance(g, bytes) else g for g in c["groups"]], "clock0": c["clock0"],
+            "steps": [{"dt": st["dt"], "group": st["g"], "status": STATUS.get(st["status"], str(st["status"])),
+                       "partitions": len(st["partitions"] or [])} for st in c["steps"]]}
+
+
 def parse_any(line):
+    if line.startswith("seq "):
+        return parse_seq(line)
     return parse_conf(line) if line.startswith("conf ") else parse(line)
 
 
 def oracle_any(c, impl_line):
+    if c.get("kind") == "seq":
+        return seq_oracle(c, impl_line)
     return conf_oracle(c, impl_line) if c.get("kind") == "conf" else oracle(c, impl_line)
 
 
 def describe_any(c):
+    if c.get("kind") == "seq":
+        return describe_seq(c)
     return describe_conf(c) if c.get("kind") == "conf" else describe(c)
 
 
